@@ -2,8 +2,13 @@
   Props/C14.lean — property C14: attribution does not depend on how often or how finely
   checkpoints are taken. Theorems over the history-level model Model/Sys.lean (tied to the binary
   by the end-to-end correspondence of C01 and by C14's own metamorphic end-to-end check).
+  The cross-file part — one checkpoint covering several files, pruning of superseded entries, the
+  scope of an agent's checkpoint — is Model/SysMulti.lean + Props/SysMulti.lean (`file_isolation`
+  reduces every file of a multi-file history to the one-file model these theorems are about); its
+  theorems are audited here and tied to the binary by the `sysm_run` correspondence of the C14 check.
 -/
 import GitAiModel.Props.C01
+import GitAiModel.Props.SysMulti
 namespace GitAi.Sys
 
 /-! ## 1. Repeating a checkpoint with no intervening change does nothing -/
@@ -235,3 +240,11 @@ end GitAi.Sys
 #print axioms GitAi.Sys.checkpoint_idempotent
 #print axioms GitAi.Sys.granularity_checkpoints
 #print axioms GitAi.Sys.granularity_split_agent_edit
+#print axioms GitAi.SysMulti.prune_per_file
+#print axioms GitAi.SysMulti.next_checkpoint_base
+#print axioms GitAi.SysMulti.checkpoint_scope
+#print axioms GitAi.SysMulti.aiEdit_scope
+#print axioms GitAi.SysMulti.checkpoint_split_by_file
+#print axioms GitAi.SysMulti.file_isolation
+#print axioms GitAi.SysMulti.preExact_needed
+#print axioms GitAi.SysMulti.commit_exact_lifted
